@@ -319,8 +319,8 @@ PROPS = {
                        'subsumption chain to its root; on the corpus programs backed by the provider (binary / ternary, every supported access '
                        'pattern, non-recursive and recursive stratum, parallel binary form) the generated protocol holds: exactly one real '
                        'shift of the shared structure per iteration - index views must not shift it again (G5), guarded insertion (G1), every '
-                       'rule variant reads the relation as the rule text says (R1-R5). NOT decided: that EqRel is an equivalence closure, that the index views enumerate '
-                       'exactly combined minus old.',
+                       'rule variant reads the relation as the rule text says (R1-R5). Added: L18 the two write paths of a write view update the same parts of the structure; L19 every reverse map is shifted new->delta->total under a guard on its own field (abstract interpretation over the three versions); L22 because the per-key merge derives pairs, the delta\'s reverse maps are completed from the per-key deltas; L20 add/insert report true on every path that changed the structure; L23 size estimates divide only by counts that are non-zero by construction; L24 iter_all is not weaker than a filtering index_get; L4b the move_*_contents helpers drain `from` completely into `to`; '
+                       'NOT decided: that EqRel is an equivalence closure, that the index views enumerate exactly combined minus old.',
         'assumptions': ['EqRel (union-find with set subsumptions) add/combine are correct on values', 'index views are not analysed'],
         'rule_text': 'one instance = one per-key merge call site / one merge sequence / one find hit-arm / one writer',
     },
@@ -328,18 +328,22 @@ PROPS = {
         'run': run_C11, 'level': 'other',
         'explanation': 'structural obligations of the trrel provider: L5 (per-key merge outputs persist in the ternary wrapper), L12 the '
                        'reflexivity filter of the closure loop is not hard-wired on (constant propagation over all constructions of the '
-                       'flag), L14 every join step of the inner semi-naive loop runs in every round (no short-circuit / dependent branch). '
-                       'NOT decided: correctness of the three joins and of the reverse maps on values.',
-        'assumptions': ['the three joins of the inner loop compute what their names say', 'reverse maps are consistent with forward maps'],
+                       'flag), L14 every join step of the inner semi-naive loop runs in every round (no short-circuit / dependent branch), '
+                       'L21 the steps of that loop cover (frontier,total), (total,frontier) and a generator-linear step (operand classes by dataflow). L18 the two write paths of a write view update the same parts of the structure; L19 every reverse map is shifted new->delta->total under a guard on its own field (abstract interpretation over the three versions); L22 because the per-key merge derives pairs, the delta\'s reverse maps are completed from the per-key deltas; L20 add/insert report true on every path that changed the structure; L23 size estimates divide only by counts that are non-zero by construction; L24 iter_all is not weaker than a filtering index_get; L4b the move_*_contents helpers drain `from` completely into `to`; '
+                       'NOT decided: the body of `join`, can_add on values.',
+        'assumptions': ['the helper `join` composes its two operands as its signature says', 'can_add is correct on values'],
         'rule_text': 'one instance = one per-key merge call site / one construction of the flag / one loop step',
     },
     'C12': {
         'run': run_C12, 'level': 'other',
         'explanation': 'structural obligations of the trrel_uf provider: L5 on the binary-to-ternary adaptor, L14 on the inner loop of the '
                        'union-find backed merge, L16 find follows the subsumption chain, L17 sibling agreement of set_of / rev_set_of on '
-                       'canonicalising class ids. NOT decided: TrRelUnionFind itself, the New/Delta/Total bookkeeping and panic freedom '
-                       '(DESIGN.md 5-O1).',
-        'assumptions': ['TrRelUnionFind::add / add_set_connection are correct on values', 'panic freedom of the adaptor is not decided'],
+                       'canonicalising class ids, L21 operand cover of the closure loop. L18 the two write paths of a write view update the same parts of the structure; L19 every reverse map is shifted new->delta->total under a guard on its own field (abstract interpretation over the three versions); L22 because the per-key merge derives pairs, the delta\'s reverse maps are completed from the per-key deltas; L20 add/insert report true on every path that changed the structure; L23 size estimates divide only by counts that are non-zero by construction; L24 iter_all is not weaker than a filtering index_get; L4b the move_*_contents helpers drain `from` completely into `to`; '
+                       'L25 the delta views admit a pair inside one class and the merge seeds the reflexive pair of first-mentioned elements; '
+                       'L26 no assertion on the total is reachable with the fresh default delta the adaptor passes with an occupied total. '
+                       'NOT decided: TrRelUnionFind itself, the New/Delta/Total bookkeeping beyond these rules; panic freedom only for the two '
+                       'shapes of L23 and L26.',
+        'assumptions': ['TrRelUnionFind::add / add_set_connection are correct on values', 'no panic other than the two decided shapes'],
         'rule_text': 'one instance = one per-key merge call site / one loop step / one find hit-arm / one sibling pair',
     },
     'C19': {
